@@ -5,6 +5,7 @@
 //!   vp selftest
 //!   vp list
 
+mod big;
 mod engine;
 mod gen;
 mod model;
@@ -36,6 +37,7 @@ fn selftest() {
     opts::self_test();
     model::self_test();
     reader::self_test();
+    big::self_test();
 }
 
 /// Run the committed corpus (replay tier) of a property.
